@@ -269,6 +269,8 @@ def r_take(f, only_types=None):
             if bad is not None:
                 R.fail(b.ident, "read-after-%s" % fn["name"],
                        "%s reads the place it has just emptied with mem::%s (it holds the replacement value, e.g. an empty slice, not the cursor) at %s" % (b.ident, fn["name"], b.where(bad)), b.where(bad))
+    # (the mutable cursors cannot advance without taking their slice: 8 sites today; a rewrite that needs fewer is fine down to 4)
+    R.require_floor(n, 4, "mem::take / mem::replace sites")
     return R, n
 
 
@@ -523,6 +525,7 @@ def r_dup(f):
                 src_ty = b.locals[st["rv"]["o"]["p"]["local"]] if st["rv"]["o"]["k"] in ("copy", "move") and not st["rv"]["o"]["p"]["proj"] else "?"
                 if re.search(r"[A-Z]/#\d+", src_ty + st["rv"]["ty"]) and norm_ty(src_ty) != norm_ty(st["rv"]["ty"]):
                     R.note("%s reinterprets a pointer %s -> %s (audited: sorted_box_to_ordering only relabels (usize,&T) pairs as (usize,usize); no array element is touched)" % (b.ident, norm_ty(src_ty), norm_ty(st["rv"]["ty"])))
+    R.require_floor(n, 6, "element-moving call sites in the generic layers")
     return R, n
 
 
@@ -565,6 +568,8 @@ def r_zstptr(f):
             seen.add(op)
             R.inst(b.ident, "raw element-pointer comparison %s" % op, False)
             R.fail(b.ident, "ptrcmp:%s" % op, "%s decides progress by comparing raw pointers to the element type (%s); for zero-sized elements all such pointers are equal, so no element is written/read although the length is adjusted" % (b.ident, op), b.where(sp))
+    R.inst("<crate>", "%d functions holding raw pointers scanned for element-pointer comparisons / offset_from" % n, True)
+    R.require_floor(n, 6, "functions with raw-pointer locals")
     return R, n
 
 
